@@ -52,8 +52,8 @@ out.append(f"{len(seeds)} breaking changes (round 1, `orig-*` reversed repairs, 
            f"property they were written against; missed: {missed or 'none'}; not run: {notrun or 'none'}; "
            f"checks that ended in a harness error on a seeded tree: {exit3 or 'none'}.")
 out.append("")
-out.append(f"{len(benign)} behaviour-preserving changes (`benign-*` ... `benign4-*`), every check against "
-           f"every change: {len(bres)} run, not quiet: {sorted(noisy) or 'none'}.")
+out.append(f"{len(benign)} behaviour-preserving changes (`benign-*` ... `benign5-*`), every check against "
+           f"every change (the fifth round: its own check and two neighbours, all twenty for benign5-C20): {len(bres)} run, not quiet: {sorted(noisy) or 'none'}.")
 out += ["", "```"]
 for s in seeds:
     for c, (e, v, l) in sorted(res.get(s, {}).items()):
